@@ -40,6 +40,7 @@ fn main() {
         "net_limits" => net::run_limits(&a),
         "net_life" => net::run_life(&a),
         "net_sync" => net::run_sync(&a),
+        "probe_starvation" => { let mut out = util::Out::new(&a.out); net::probe_stream_starvation(&mut out); out.finish() }
         "ws_first_stress" => { let mut out = util::Out::new(&a.out); for _ in 0..60 { net::ws_server_speaks_first(&mut out); } net::ws_server_speaks_first_threaded(&mut out, 3000); out.finish() }
         "node" => nodeh::run(&a),
         other => {
